@@ -157,12 +157,16 @@ Definition kstep (dt : R) (s : kstate) (u : kinc) : kstate :=
             (kapp step3d_C10 dt s u) (kapp step3d_C11 dt s u) (kapp step3d_C12 dt s u)
             (kapp step3d_C20 dt s u) (kapp step3d_C21 dt s u) (kapp step3d_C22 dt s u).
 
-(** the loop: n iterations with constant interval h and increments inc 0, inc 1, ... *)
-Fixpoint krun (h : R) (inc : nat -> kinc) (s0 : kstate) (n : nat) : kstate :=
+(** n iterations of a step map whose inputs may differ from step to step *)
+Fixpoint onestep_run {X : Type} (step : nat -> X -> X) (x0 : X) (n : nat) : X :=
   match n with
-  | O => s0
-  | S m => kstep h (krun h inc s0 m) (inc m)
+  | O => x0
+  | S m => step m (onestep_run step x0 m)
   end.
+
+(** the loop: n iterations with constant interval h and increments inc 0, inc 1, ... *)
+Definition krun (h : R) (inc : nat -> kinc) (s0 : kstate) (n : nat) : kstate :=
+  onestep_run (fun m s => kstep h s (inc m)) s0 n.
 
 (** l1 distance on the 15 components *)
 Definition kdist (a b : kstate) : R :=
@@ -206,6 +210,11 @@ Definition h_rate_dv2 (dt ga0 ga1 ga2 ge0 ge1 ge2 fa0 fa1 fa2 fe0 fe1 fe2 : R) :
      + h_cross2 fa0 fa1 fa2 (ge0 - ga0) (ge1 - ga1) (ge2 - ga2)) * (dt * dt) / 12
   + 1 / 2 * h_cross2 (h_rate_inc dt ga0 ge0) (h_rate_inc dt ga1 ge1) (h_rate_inc dt ga2 ge2)
                      (h_rate_inc dt fa0 fe0) (h_rate_inc dt fa1 fe1) (h_rate_inc dt fa2 fe2).
+
+(** integrals of a signal with antiderivative W over the current interval [0, dt] and over the
+    previous interval [-dt, 0] *)
+Definition h_cur (W : R -> R) (dt : R) : R := W dt - W 0.
+Definition h_prv (W : R -> R) (dt : R) : R := W 0 - W (- dt).
 
 (** increment-type sensor: p = sample of the previous interval, c = sample of the current one
     (both are integrals of the signal over their interval) *)
